@@ -2,6 +2,7 @@ import SoxrModel.Cr.Model
 import SoxrModel.Cr.Wf
 import SoxrModel.Cr.Time
 import SoxrModel.Cr.Shift
+import SoxrModel.Cr.Cone
 /-! Line-protocol driver for the constant-rate count model (`soxrmodel cr < ops`).  One op per line in, one canonical
     line out; the harness diffs these lines with what the real code printed. -/
 namespace Soxr.Cr.Driver
@@ -126,6 +127,15 @@ def step (d : DSt) (line : String) : DSt × Option String :=
     match planShift 200000 (d.lplan.map fun x => (x.cfg, x.s0)) with
     | none => (d, some "PERIOD none")
     | some (din, dout, hor) => (d, some s!"PERIOD in={din} out={dout} hor={hor}")
+  | "cr.cone" :: js =>
+    -- `coneI` of Cr/Cone.lean (the hypothesis of `locality_runs`) for single output frames of the fresh plan: `lo-hi` per frame, `-` = nothing but preload
+    let pl := d.lplan.map fun x => (x.cfg, x.s0)
+    let ans := js.map fun t => match t.toNat? with
+      | none => "?"
+      | some j => match coneI 1000000 pl j j with
+        | none => "?"
+        | some (a, b) => if b < a then "-" else s!"{a}-{b}"
+    (d, some ("CONE " ++ " ".intercalate ans))
   | ["cr.eoi"] =>
     -- soxr_process(p, NULL, 0, &idone, NULL, 0, &odone): end-of-input latched on the API object and passed to the engine
     let a := d.api.signalEnd (num d)
